@@ -22,6 +22,9 @@ func checkC19(c *Check) {
 	if !c.Anchor("sshd dispatcher", d != nil) {
 		return
 	}
+	for _, pr := range d.Problems {
+		c.Unk("dispatch-table", pr, "-", "dispatch row not understood")
+	}
 	inc := p.Method("internal/metrics", "PrometheusMetricsProvider", "IncLogins")
 	if !c.Anchor("(*metrics.PrometheusMetricsProvider).IncLogins", inc != nil) {
 		return
@@ -64,6 +67,32 @@ func checkC19(c *Check) {
 				}
 			}
 		}
+		if pred == nil && row.TabG != nil {
+			// table-driven dispatch: the dispatcher is read as specialised to
+			// this element of the table: the element's matcher holds, the
+			// scan is in progress, reads of the element's fields have the
+			// element's values, the selected function is this row's
+			pcT := NewPathCounter(p, isEmit, isCount)
+			rowc := row
+			pcT.Dynamic = func(ci ssa.CallInstruction) (PCSet, bool) {
+				if ci == ssa.CallInstruction(d.CallSite) {
+					return pc.Summary(rowc.Fn), true
+				}
+				// the call of the element's handler-selecting field
+				if g, _, _, ok := tablePath(ci.Common().Value); ok && g == rowc.TabG {
+					if rowc.Sel != nil {
+						return pc.Summary(rowc.Sel), true
+					}
+					return PCSet{PC{0, 0}: true}, true
+				}
+				return nil, false
+			}
+			pcT.CondEval = tableCondEval(d, rowc)
+			total := pcT.Region(d.Fn, nil, nil)
+			judgeRowTotal(c, p, name, rowc, total)
+			labelRule(c, d, rowc, inc, rx)
+			continue
+		}
 		if pred == nil {
 			c.Unk("one-increment-per-emit", name, p.InstrPos(row.Site), "cannot locate the case of this row in the dispatcher")
 			continue
@@ -91,27 +120,8 @@ func checkC19(c *Check) {
 		}
 		seg2 := pc2.Region(d.Fn, phiBlock, nil)
 		total := seg1.cross(seg2)
-		bad := ""
-		emits := false
-		for k := range total {
-			if k.A >= 1 {
-				emits = true
-				if k.A != 1 {
-					bad = fmt.Sprintf("a path emits %d events", k.A)
-				} else if k.B != 1 {
-					bad = fmt.Sprintf("a path that emits one event performs %s increment(s) of the logins counter", cnt(k.B))
-				}
-			}
-		}
-		c.Fn(funcDisplayName(row.Fn))
-		if !emits {
-			c.Bad("one-increment-per-emit", name, p.InstrPos(row.Site), "no path of this row emits an event (count pairs "+total.String()+")")
+		if !judgeRowTotal(c, p, name, row, total) {
 			continue
-		}
-		if bad == "" {
-			c.OK("one-increment-per-emit", name, p.InstrPos(row.Site), "count pairs (emit,count) over all paths: "+total.String())
-		} else {
-			c.Bad("one-increment-per-emit", name, p.InstrPos(row.Site), bad+"; pairs "+total.String())
 		}
 		// label agreement
 		labelRule(c, d, row, inc, rx)
@@ -131,6 +141,24 @@ func checkC19(c *Check) {
 			if fn == d.Fn {
 				// must lie in a case body: guarded by at least one positive dispatch predicate
 				pos, _, _ := predsAt(NewResolver(p), ci)
+				if len(pos) == 0 {
+					// table-driven dispatch: guarded by the matcher of the table element being visited
+					for _, row := range d.Rows {
+						if row.TabG == nil || len(pos) > 0 {
+							continue
+						}
+						for _, g := range GuardsOf(ci) {
+							a := atomsOf(g)
+							cl, isCall := a.V.(*ssa.Call)
+							if !isCall || !a.Pos {
+								continue
+							}
+							if tg, _, _, ok := tablePath(cl.Common().Value); ok && tg == row.TabG && staticCallee(cl.Common()) == nil {
+								pos = append(pos, Pred{Kind: "prefix", Prefix: "<matcher of the table element>"})
+							}
+						}
+					}
+				}
 				if len(pos) == 0 {
 					// guarded by "a function was selected": the dispatch phi is non-nil
 					for _, g := range GuardsOf(ci) {
@@ -157,6 +185,10 @@ func checkC19(c *Check) {
 	// blank is not a recognised line), and the line is not rewritten
 	spacingRule(c)
 	importRules(c, "C17", checkC17, "", "line-integrity")
+	// ... and a line is a whole record: the rest of an over-long record is
+	// not parsed as a record of its own (rules of C12)
+	nw := importRules(c, "C12", checkC12, "lines-are-whole-records: ", "framing-primitive", "once-verbatim-in-order")
+	c.Floor("imported lines-are-whole-records obligations", 5, nw)
 	// IncLogins faithful
 	incFaithful(c, inc)
 }
@@ -209,7 +241,26 @@ func labelRule(c *Check, d *Dispatch, row Row, inc *ssa.Function, rx map[string]
 	for _, b := range row.Bodies {
 		for _, in := range b.Instrs {
 			if ci, ok := in.(ssa.CallInstruction); ok && isIncCall(ci.Common(), inc) {
-				incs = append(incs, incSite{ci, NewResolver(p)})
+				rr := NewResolver(p)
+				if row.TabG != nil {
+					// read as specialised to this row's element: the
+					// element's values, and only the increments whose guards
+					// hold for this element
+					for k, v := range row.TabEnv {
+						rr.Env[k] = v
+					}
+					ev := tableCondEval(d, row)
+					skip := false
+					for _, g := range GuardsOf(ci) {
+						if val, known := ev(g.Cond); known && val != g.True {
+							skip = true
+						}
+					}
+					if skip {
+						continue
+					}
+				}
+				incs = append(incs, incSite{ci, rr})
 			}
 		}
 	}
@@ -512,4 +563,150 @@ func isIncCall(cc *ssa.CallCommon, inc *ssa.Function) bool {
 		return isCalleeObj(cc, inc.Object())
 	}
 	return false
+}
+
+
+// judgeRowTotal: every path of the row that emits emits once and counts once.
+func judgeRowTotal(c *Check, p *Prog, name string, row Row, total PCSet) bool {
+	bad := ""
+	emits := false
+	for k := range total {
+		if k.A >= 1 {
+			emits = true
+			if k.A != 1 {
+				bad = fmt.Sprintf("a path emits %d events", k.A)
+			} else if k.B != 1 {
+				bad = fmt.Sprintf("a path that emits one event performs %s increment(s) of the logins counter", cnt(k.B))
+			}
+		}
+	}
+	c.Fn(funcDisplayName(row.Fn))
+	if !emits {
+		c.Bad("one-increment-per-emit", name, p.InstrPos(row.Site), "no path of this row emits an event (count pairs "+total.String()+")")
+		return false
+	}
+	if bad == "" {
+		c.OK("one-increment-per-emit", name, p.InstrPos(row.Site), "count pairs (emit,count) over all paths: "+total.String())
+	} else {
+		c.Bad("one-increment-per-emit", name, p.InstrPos(row.Site), bad+"; pairs "+total.String())
+	}
+	return true
+}
+
+// tableCondEval decides the dispatcher's branch conditions for one row of a
+// table-driven dispatch: the scan is at this row's element (loop condition
+// true, the element's matcher true), conditions on the element's fields are
+// evaluated with the element's values, a function was selected.
+func tableCondEval(d *Dispatch, row Row) func(ssa.Value) (bool, bool) {
+	constOf := func(v ssa.Value) (*Org, bool) {
+		if o, ok := row.TabEnv[v]; ok {
+			return o, true
+		}
+		if k, ok := v.(*ssa.Const); ok {
+			return &Org{K: "const", V: k, Name: func() string {
+				if k.Value == nil {
+					return "nil"
+				}
+				return k.Value.ExactString()
+			}()}, true
+		}
+		return nil, false
+	}
+	var eval func(v ssa.Value, depth int) (bool, bool)
+	eval = func(v ssa.Value, depth int) (bool, bool) {
+		if depth > 6 {
+			return false, false
+		}
+		if o, ok := row.TabEnv[v]; ok && o.K == "const" {
+			if o.Name == "true" {
+				return true, true
+			}
+			if o.Name == "false" {
+				return false, true
+			}
+		}
+		switch x := v.(type) {
+		case *ssa.UnOp:
+			if x.Op == token.NOT {
+				b, ok := eval(x.X, depth+1)
+				return !b, ok
+			}
+		case *ssa.Call:
+			// the matcher of the element currently visited
+			cc := x.Common()
+			if g, _, _, ok := tablePath(cc.Value); ok && g == row.TabG && staticCallee(cc) == nil {
+				return true, true
+			}
+			if sc := staticCallee(cc); sc != nil && sc.String() == "(*regexp.Regexp).MatchString" && len(cc.Args) == 2 {
+				if g, _, _, ok := tablePath(cc.Args[0]); ok && g == row.TabG {
+					return true, true
+				}
+			}
+		case *ssa.BinOp:
+			switch x.Op {
+			case token.EQL, token.NEQ:
+				if x.X == ssa.Value(d.Phi) || x.Y == ssa.Value(d.Phi) {
+					if isNilConst(x.X) || isNilConst(x.Y) {
+						return x.Op == token.NEQ, true
+					}
+				}
+				a, oka := constOf(x.X)
+				b, okb := constOf(x.Y)
+				if oka && okb {
+					an, bn := a.Name, b.Name
+					if a.K == "zero" {
+						an = "nil"
+					}
+					if b.K == "zero" {
+						bn = "nil"
+					}
+					if a.K == "func" && bn == "nil" || b.K == "func" && an == "nil" {
+						return x.Op == token.NEQ, true
+					}
+					if a.K == "func" || b.K == "func" {
+						return false, false
+					}
+					return (an == bn) == (x.Op == token.EQL), true
+				}
+				// a pointer field of the element compared with nil: known
+				// non-nil when the evaluation found a literal behind it
+				for _, pair := range [][2]ssa.Value{{x.X, x.Y}, {x.Y, x.X}} {
+					if !isNilConst(pair[1]) {
+						continue
+					}
+					if g, _, path, ok := tablePath(pair[0]); ok && g == row.TabG && row.TabElem != nil {
+						sv := followSV(row.TabElem, path)
+						switch sv.K {
+						case "ptr", "closure", "func", "global":
+							return x.Op == token.NEQ, true
+						case "nil", "zero":
+							return x.Op == token.EQL, true
+						}
+					}
+				}
+			case token.LSS, token.GTR, token.LEQ, token.GEQ:
+				// the loop condition of the scan: index against len(table)
+				for _, side := range []ssa.Value{x.X, x.Y} {
+					if cl, ok := side.(*ssa.Call); ok {
+						if bi, ok := cl.Call.Value.(*ssa.Builtin); ok && bi.Name() == "len" && len(cl.Call.Args) == 1 {
+							if ld, ok := cl.Call.Args[0].(*ssa.UnOp); ok && ld.X == ssa.Value(row.TabG) {
+								return true, true
+							}
+						}
+					}
+				}
+			}
+		case *ssa.Extract:
+			// range over the table: the "ok" of the iterator
+			if nx, ok := x.Tuple.(*ssa.Next); ok && x.Index == 0 {
+				if rg, ok := nx.Iter.(*ssa.Range); ok {
+					if ld, ok := rg.X.(*ssa.UnOp); ok && ld.X == ssa.Value(row.TabG) {
+						return true, true
+					}
+				}
+			}
+		}
+		return false, false
+	}
+	return func(v ssa.Value) (bool, bool) { return eval(v, 0) }
 }
